@@ -1,526 +1,38 @@
-"""C18 — an interrupted parameter study restarts without redoing or losing cases (protocol-level necessary conditions)."""
+"""C18 -- an interrupted parameter study restarts without redoing or losing cases.
+
+Decided by interpreting the study driver (and whatever helpers it is split into) on a finite model of its environment, see c18_model.py: every prefix of the
+effect trace of a model study is a kill point; from each of them the driver is interpreted again on the same directory and the outcome compared with the
+uninterrupted run."""
 from __future__ import annotations
-import ast
-import networkx as nx
 from ..core.report import AnalysisError
 from ..frontend.pyfront import Repo
-from ..frontend.cfg import CFG, ENTRY, EXIT, RAISE
 from .common import need_func
+from . import c18_model as M
 
 LEVEL = 'other'
-TECHNIQUE = 'statement CFG of the study driver and its worker: dominance (result file before success marker), flag-sensitive reachability (failed run never writes the marker), guard dominance on the skip list, free-variable analysis of the worker record, writer/reader agreement of the journal line format'
-LEVEL_TEXT = ('Kill points cannot be enumerated statically; decided instead are the ordering and bookkeeping rules that make every kill point safe: the success marker is the last durable '
-              'write of a case and implies its result file, a failed case writes no marker, only marked cases are skipped, a worker result is built from the worker\'s own arguments, '
-              'journal writer and reader agree (including tuple-valued must-include), and the returned list is uniform across fresh and restarted cases.')
-LEVEL_NOTE = 'Trusted: ast front-end, CFG builder. Not decided: atomicity of a single np.savez / file write under kill -9 (OS-level), behaviour of pathos/multiprocessing pools.'
-EXPLANATION = 'R18.1 marker last; R18.2 failed => no marker, skip => marker; R18.3 own identity; R18.4 journal agreement; R18.5 uniform results; R18.6 skip set consistency; R18.7 results read only under the marker; R18.8 case-directory names: worker template, restart scan and reload template agree.'
-
-
-def const_strings(node):
-    return [n.value for n in ast.walk(node) if isinstance(n, ast.Constant) and isinstance(n.value, str)]
-
-
-def path_strings(expr, scopes, depth=4):
-    """String constants a path expression is built from, following local / enclosing-scope names through their assignments
-    (`results_path = os.path.join(d, 'mp_results.npz')` ... `np.savez(results_path, ...)`)."""
-    out = list(const_strings(expr))
-    if depth <= 0:
-        return out
-    for n in ast.walk(expr):
-        if isinstance(n, ast.Name):
-            for sc in scopes:
-                for a in ast.walk(sc):
-                    if isinstance(a, ast.Assign) and any(isinstance(t, ast.Name) and t.id == n.id for t in a.targets):
-                        out += path_strings(a.value, scopes, depth - 1)
-                    elif isinstance(a, ast.AnnAssign) and isinstance(a.target, ast.Name) and a.target.id == n.id and a.value is not None:
-                        out += path_strings(a.value, scopes, depth - 1)
-    return out
-
-
-def enclosing_function(root, node):
-    best = root
-    for fn in ast.walk(root):
-        if isinstance(fn, (ast.FunctionDef, ast.Lambda)) and fn is not root and any(x is node for x in ast.walk(fn)):
-            if sum(1 for _ in ast.walk(fn)) < sum(1 for _ in ast.walk(best)):
-                best = fn
-    return best
-
-
-
-def true_edge(t, is_target):
-    """the outcome ('true' / 'false') of test `t` on which the call selected by `is_target` inside it is known to have returned True; None if neither"""
-    if isinstance(t, ast.Call) and is_target(t):
-        return 'true'
-    if isinstance(t, ast.UnaryOp) and isinstance(t.op, ast.Not):
-        r_ = true_edge(t.operand, is_target)
-        return None if r_ is None else ('false' if r_ == 'true' else 'true')
-    if isinstance(t, ast.BoolOp):
-        rs = [true_edge(v_, is_target) for v_ in t.values]
-        if isinstance(t.op, ast.And) and 'true' in rs: return 'true'        # every conjunct holds on the true edge
-        if isinstance(t.op, ast.Or) and 'false' in rs: return 'false'      # every disjunct fails on the false edge
-    return None
+TECHNIQUE = ('abstract interpretation of the study driver multiprocessing_run, its worker and their helpers on a finite model of the environment (file system = set of paths with contents and an '
+             'effect trace, process pool = sequential application, study function = counting stub, clock / psutil = constants); every prefix of the effect trace of the model study, every '
+             'combination of per-case progress of concurrent workers, and every pair of successive kills is a kill point from which the driver is interpreted again; outcomes compared with the '
+             'uninterrupted model run')
+LEVEL_TEXT = ('Decided on model studies (grids of 3 to 6 cases; list / tuple / empty must-include, linear and log scales, pathos and stdlib pools, a case that raises): from every kill point the '
+              'restarted study completes, every case ends with exactly one result equal to the uninterrupted run\'s, cases whose success marker had been written are not executed again, no case is '
+              'executed twice, and every record carries the case number it was run under and the grid index of the inputs it was run with. The file system model makes every write call durable at '
+              'once and np.savez two-phase (created incomplete, then complete), which is a superset of the states a killed process can leave.')
+LEVEL_NOTE = ('Trusted: ast front-end, interpreter, the environment model (os / open / numpy save-load / pools as described in c18_model.py). Not decided: larger grids than the model studies '
+              '(the driver treats cases uniformly), torn writes inside a single write call, behaviour of the real pool implementations, the forced-new-study path, post-processing.')
+EXPLANATION = ('R18.1 from every kill point (prefix of the effect trace) the restarted study completes with exactly one result per case equal to the uninterrupted run; R18.2 from every kill point no '
+               'completed case is executed again and no case twice; R18.3 uninterrupted run: one record per case carrying its own case number, grid index and result; R18.6 every combination of '
+               'per-case progress (concurrent workers); R18.7 kill, restart, kill again, restart.')
 
 
 def run(chk):
     repo = Repo(chk.repo)
     m = repo.by_path('TidalPy/utilities/multiprocessing/multiprocessing.py')
-    f = need_func(m, 'multiprocessing_run')
-    # ---- locate the worker: the nested function handed to pool.map / pool.starmap
-    nested = {n.name: n for n in ast.walk(f) if isinstance(n, ast.FunctionDef) and n is not f}
-    worker = None
-    for n in ast.walk(f):
-        if isinstance(n, ast.Call) and isinstance(n.func, ast.Attribute) and n.func.attr in ('map', 'starmap', 'imap', 'apply_async'):
-            for a in n.args[:1]:
-                if isinstance(a, ast.Name) and a.id in nested:
-                    worker = nested[a.id]
-                elif isinstance(a, ast.Name):
-                    # lambda alias: patho_func = lambda x: func_to_use(*x)
-                    for s in ast.walk(f):
-                        if isinstance(s, ast.Assign) and isinstance(s.targets[0], ast.Name) and s.targets[0].id == a.id and isinstance(s.value, ast.Lambda):
-                            for c in ast.walk(s.value):
-                                if isinstance(c, ast.Call) and isinstance(c.func, ast.Name) and c.func.id in nested:
-                                    worker = nested[c.func.id]
-    if worker is None:
-        raise AnalysisError('multiprocessing_run: worker function handed to the pool not found')
-    chk.note_analysed('functions', f'multiprocessing_run, worker {worker.name}')
-
-    # ---- reader side defines marker and result file names
-    marker = result_file = None
-    skip_append = None
-    # the skip list is found by its role, not by its name: a local list that is appended to and later consulted with `in` / `not in`
-    appended = {}
-    for n in ast.walk(f):
-        if isinstance(n, ast.Call) and isinstance(n.func, ast.Attribute) and n.func.attr == 'append' and isinstance(n.func.value, ast.Name):
-            appended.setdefault(n.func.value.id, []).append(n)
-    tested = set()
-    for n in ast.walk(f):
-        if isinstance(n, ast.Compare) and any(isinstance(o, (ast.In, ast.NotIn)) for o in n.ops):
-            tested |= {c.id for c in n.comparators if isinstance(c, ast.Name)}
-    cands = [nm for nm in appended if nm in tested]
-    if len(cands) != 1:
-        raise AnalysisError(f'multiprocessing_run: skip list not identified (lists that are appended to and membership-tested: {cands})')
-    skip_name = cands[0]
-    skip_append = min(appended[skip_name], key=lambda n: n.lineno)
-    # the guard of the first skip append: isfile(<path built from a constant>)
-    outer_nodes = [n for n in ast.walk(f)]
-    assigns = {}
-    for n in outer_nodes:
-        if isinstance(n, ast.Assign) and isinstance(n.targets[0], ast.Name):
-            assigns.setdefault(n.targets[0].id, []).append(n)
-    cfg = CFG(f)
-    G = cfg.G
-    # find the If that guards the skip append
-    sa_stmt = stmt_of(f, skip_append)
-    sa_node = cfg.node_of.get(id(sa_stmt))
-    guard_if = None
-    loops_around = [l for l in ast.walk(f) if isinstance(l, (ast.For, ast.While)) and any(x is sa_stmt for x in ast.walk(l))]
-    inner_loop = min(loops_around, key=lambda l: sum(1 for _ in ast.walk(l))) if loops_around else f
-    in_loop = {id(x) for x in ast.walk(inner_loop)}
-    for n, dct in G.nodes(data=True):
-        st = dct.get('stmt')
-        if isinstance(st, ast.If) and id(st) in in_loop and 'isfile' in ast.unparse(st.test):
-            if nx.has_path(G, n, sa_node) and (guard_if is None or st.lineno > guard_if[1].lineno) and st.lineno < sa_stmt.lineno:
-                guard_if = (n, st)
-    if guard_if is None:
-        chk.ob('R18.2', 'a case is put on the skip list only when its success marker exists (guard dominance)', False,
-               f'{skip_name}.append(...) is not guarded by any os.path.isfile(<marker>) test: unfinished cases would be skipped on restart', m.where(sa_stmt), method='CFG edge-removal reachability')
-        return
-    gname = [x.id for x in ast.walk(guard_if[1].test) if isinstance(x, ast.Name) and x.id in assigns]
-    for nm in gname:
-        for a in assigns[nm]:
-            cs = [c for c in const_strings(a.value) if '.' in c]
-            if cs: marker = cs[0]
-    for n in ast.walk(f):
-        if isinstance(n, ast.Call) and ast.unparse(n.func) in ('np.load', 'numpy.load') and enclosing_function(f, n) is f:
-            cs = [c for c in path_strings(n, [f]) if '.' in c]
-            if cs: result_file = cs[0]
-    if not marker or not result_file:
-        raise AnalysisError(f'could not identify marker/result file names from the restart reader (marker={marker}, result={result_file})')
-    chk.note_analysed('protocol', f'marker file {marker!r}, result file {result_file!r} (taken from the restart reader)')
-
-    # ---- R18.2b skip => marker present: the append is only reachable through the marker-present edge of the guard
-    H = G.copy()
-
-    edge_kind = true_edge(guard_if[1].test, lambda c_: 'isfile' in ast.unparse(c_.func))
-    if edge_kind is None:
-        raise AnalysisError(f'{m.where(guard_if[1])}: cannot tell on which outcome of `{ast.unparse(guard_if[1].test)[:80]}` the success marker is known to exist')
-    for (u, v, dct) in list(H.out_edges(guard_if[0], data=True)):
-        if dct['kind'] == edge_kind:
-            H.remove_edge(u, v)
-    ok = not nx.has_path(H, ENTRY, sa_node)
-    chk.ob('R18.2', 'a case is put on the skip list only when its success marker exists (guard dominance)', ok, 'skip append reachable without the marker test succeeding', m.where(sa_stmt), method='CFG edge-removal reachability')
-
-    # ---- worker CFG
-    wcfg = CFG(worker)
-    WG = wcfg.G
-
-    def writers(name, modes=('w', 'wb', 'x', None)):
-        out = []
-        for n, dct in WG.nodes(data=True):
-            st = dct.get('stmt')
-            if st is None: continue
-            hdr = header_expr(st)
-            for c in ast.walk(hdr):
-                if isinstance(c, ast.Call) and name in path_strings(c, [worker, f]):
-                    fn_ = ast.unparse(c.func)
-                    if fn_ == 'open':
-                        mode = c.args[1].value if len(c.args) > 1 and isinstance(c.args[1], ast.Constant) else 'r'
-                        if mode in ('w', 'wb', 'x', 'a'): out.append(n)
-                    elif fn_.split('.')[-1] in ('savez', 'save', 'savez_compressed', 'savetxt', 'dump'):
-                        out.append(n)
-        return sorted(set(out))
-    mk = writers(marker); rs = writers(result_file)
-    if not mk:
-        raise AnalysisError(f'worker {worker.name}: writer of the marker {marker} not found')
-    if not rs:
-        chk.ob('R18.1', f'every path to the write of {marker} has already written {result_file} (marker last)', False,
-               f'the worker writes {marker} but never writes {result_file}, which the restart path loads for every skipped case', m.where(WG.nodes[mk[0]]['stmt']), key='R18.1|marker-after-result', method='CFG dominance')
-        return
-    idom = wcfg.dominators()
-    for mnode in mk:
-        dom = any(wcfg.dominates(r, mnode, idom) for r in rs)
-        st = WG.nodes[mnode]['stmt']
-        chk.ob('R18.1', f'every path to the write of {marker} has already written {result_file} (marker last)', dom,
-               f'{marker} is written at line {st.lineno} on a path that has not yet written {result_file} (line {WG.nodes[rs[0]]["stmt"].lineno}): a kill between them leaves a marked case without a result',
-               m.where(st), key='R18.1|marker-after-result', method='CFG dominance')
-        # nothing durable after the marker except appends to the study log
-        later = []
-        for n in nx.descendants(WG, mnode):
-            st2 = WG.nodes[n].get('stmt')
-            if st2 is None: continue
-            for c in ast.walk(header_expr(st2)):
-                if isinstance(c, ast.Call):
-                    fn_ = ast.unparse(c.func)
-                    if fn_ == 'open' and len(c.args) > 1 and isinstance(c.args[1], ast.Constant) and c.args[1].value in ('w', 'wb', 'x'):
-                        later.append(st2.lineno)
-                    if fn_.split('.')[-1] in ('savez', 'save', 'savez_compressed', 'makedirs'):
-                        later.append(st2.lineno)
-        chk.ob('R18.1', f'no durable write (other than log appends) follows the write of {marker}', not later, f'durable writes after the marker at lines {sorted(set(later))}', m.where(st),
-               key='R18.1|nothing-after-marker', method='CFG reachability')
-    # ---- R18.2a failed => no marker (flag-sensitive reachability from the except handler)
-    handlers = [n for n, dct in WG.nodes(data=True) if dct.get('role') == 'handler']
-    if not handlers:
-        raise AnalysisError('worker has no exception handler around the study function')
-    for h in handlers:
-        bad = flag_reach(WG, h, set(mk))
-        chk.ob('R18.2', 'a case whose study function raised never writes the success marker', bad is None,
-               f'path from the except handler to the marker write: {wcfg.describe_path(bad, m) if bad else ""}', m.where(WG.nodes[h]['stmt']), method='flag-sensitive CFG reachability')
-
-    # ---- R18.7 the result file is only ever read for a case whose success marker is known to exist.  np.savez is not atomic: a kill inside it
-    #      leaves a truncated result file and no marker, and such a case must be recomputed, never reloaded.
-    n_reads = 0
-    for n in ast.walk(f):
-        if not isinstance(n, ast.Call):
-            continue
-        fn_ = ast.unparse(n.func)
-        is_read = fn_.split('.')[-1] in ('load', 'loadtxt', 'genfromtxt') or \
-            (fn_ == 'open' and (len(n.args) < 2 or (isinstance(n.args[1], ast.Constant) and str(n.args[1].value).startswith('r'))))
-        if not is_read:
-            continue
-        encl = enclosing_function(f, n)
-        scopes = [encl, worker, f] if encl is not f else [f]
-        if result_file not in path_strings(n, scopes):
-            continue
-        n_reads += 1
-        st = stmt_of(encl, n)
-        ok = False; why = ''
-        if encl is f:
-            for l in ast.walk(f):
-                if isinstance(l, ast.For) and any(x is n for x in ast.walk(l)) and any(isinstance(x, ast.Name) and x.id == skip_name for x in ast.walk(l.iter)):
-                    ok = True
-            why = 'read in the driver outside the loop over the skip list (whose members are marked cases by R18.2)'
-        if not ok and isinstance(encl, ast.FunctionDef):
-            ecfg = cfg if encl is f else CFG(encl)
-            EG = ecfg.G.copy()
-            tgt = ecfg.node_of.get(id(st))
-            for gn, dct in list(EG.nodes(data=True)):
-                gst = dct.get('stmt')
-                if isinstance(gst, ast.If):
-                    for c in ast.walk(gst.test):
-                        if isinstance(c, ast.Call) and ast.unparse(c.func).split('.')[-1] in ('isfile', 'exists') and marker in path_strings(c, scopes):
-                            present = true_edge(gst.test, lambda c_, c=c: c_ is c)      # outcome on which the marker is known to exist
-                            for (u, v, d2) in list(EG.out_edges(gn, data=True)):
-                                if present is not None and d2['kind'] == present:
-                                    EG.remove_edge(u, v)
-            # after removing every marker-present edge the read must be unreachable
-            reach = tgt is not None and nx.has_path(EG, ENTRY, tgt)
-            # (only meaningful if at least one marker test exists)
-            ok = not reach
-            why = f'{result_file} is read in {getattr(encl, "name", "<lambda>")} on a path that never established that {marker} exists: a case killed inside the (non-atomic) result write would be reloaded from a truncated file instead of recomputed'
-        chk.ob('R18.7', f'{result_file} is read only for cases whose {marker} exists', ok, why, m.where(st), key=f'R18.7|{getattr(encl, "name", "?")}|{ast.unparse(n)[:50]}', method='CFG edge-removal reachability / skip-list loop')
-    chk.floor('R18.7', 1)
-
-    # ---- R18.3 own identity
-    params = {a.arg for a in worker.args.args + worker.args.kwonlyargs} | ({worker.args.vararg.arg} if worker.args.vararg else set()) | ({worker.args.kwarg.arg} if worker.args.kwarg else set())
-    local_defs = set()
-    for n in ast.walk(worker):
-        if isinstance(n, ast.Name) and isinstance(n.ctx, ast.Store): local_defs.add(n.id)
-        if isinstance(n, ast.ExceptHandler) and n.name: local_defs.add(n.name)
-    outer_assigned = {}
-    for n in ast.walk(f):
-        if n is worker: continue
-    for n in outer_nodes:
-        if isinstance(n, ast.Name) and isinstance(n.ctx, ast.Store) and not inside(worker, n):
-            outer_assigned[n.id] = outer_assigned.get(n.id, 0) + 1
-    nret = 0
-    for r in ast.walk(worker):
-        if isinstance(r, ast.Return) and r.value is not None and enclosing_function(worker, r) is worker:
-            nret += 1
-            free = sorted({n.id for n in ast.walk(r.value) if isinstance(n, ast.Name) and isinstance(n.ctx, ast.Load) and n.id not in params and n.id not in local_defs
-                           and outer_assigned.get(n.id, 0) >= 1 and not is_global_like(n.id, m)})
-            varying = [v for v in free if outer_assigned.get(v, 0) > 1 or loop_var(f, v)]
-            chk.ob('R18.3', 'the worker\'s returned record is built only from its own parameters and locals', not varying,
-                   f'reads enclosing-scope variable(s) {varying} that the driver reassigns (every result would carry the driver\'s last value)', m.where(r), key='R18.3|worker-record', method='free-variable analysis')
-            # record type
-            ok = isinstance(r.value, ast.Call) and ast.unparse(r.value.func) == 'MultiprocessingOutput'
-            chk.ob('R18.5', 'worker returns a MultiprocessingOutput', ok, f'returns {ast.unparse(r.value)[:60]}', m.where(r), method='AST')
-            if ok:
-                kw = {k.arg: ast.unparse(k.value) for k in r.value.keywords}
-                okb = kw.get('case_number') in params and kw.get('input_index') in params
-                chk.ob('R18.3', 'case_number and input_index of the record are the worker\'s own run number and grid index parameters', okb, f'record fields: {kw}', m.where(r), key='R18.3|record-fields', method='AST binding')
-    if nret == 0:
-        raise AnalysisError('worker has no return')
-
-    # ---- R18.4 journal agreement
-    journal(chk, m, f)
-
-    # ---- R18.5 uniform results: everything concatenated into the returned list
-    ret_names = {ast.unparse(r.value) for r in ast.walk(f) if isinstance(r, ast.Return) and r.value is not None and not inside(worker, r)}
-    for n in outer_nodes:
-        if isinstance(n, ast.Call) and isinstance(n.func, ast.Attribute) and n.func.attr == 'append' and isinstance(n.func.value, ast.Name):
-            tgt = n.func.value.id
-            if flows_into(f, tgt, ret_names):
-                arg = n.args[0]
-                ok = isinstance(arg, ast.Call) and ast.unparse(arg.func) == 'MultiprocessingOutput'
-                chk.ob('R18.5', f'items appended to {tgt} (concatenated into the returned results) are MultiprocessingOutput records', ok,
-                       f'appends {ast.unparse(arg)[:70]} (a bare {type(arg).__name__.lower()})', m.where(n), key=f'R18.5|{tgt}.append', method='AST def-use')
-
-    # ---- R18.6 skip set consistency
-    uses = [n for n in outer_nodes if isinstance(n, ast.Name) and n.id == skip_name]
-    stores = sorted(n.lineno for n in uses if isinstance(n.ctx, ast.Store))
-    build_loop = next((n for n in outer_nodes if isinstance(n, ast.If) and isinstance(n.test, ast.Compare) and any(isinstance(o, ast.In) for o in n.test.ops)
-                       and any(isinstance(x, ast.Name) and x.id == skip_name for x in ast.walk(n.test))), None)
-    load_loop = next((n for n in outer_nodes if isinstance(n, ast.For) and ast.unparse(n.iter) == skip_name), None)
-    ok = build_loop is not None and load_loop is not None and not any(build_loop.lineno < s < load_loop.lineno for s in stores) and \
-        any(isinstance(x, ast.Continue) for x in ast.walk(build_loop))
-    chk.ob('R18.6', 'the cases skipped when building work are exactly those reloaded from disk (same container, not reassigned in between)', ok,
-           f'stores at {stores}', m.where(build_loop) if build_loop is not None else m.rel(), method='AST def-use')
-    case_dirs(chk, m, f, worker, skip_name)
-    chk.floor('R18.8', 3)
-    chk.floor('R18.1', 2); chk.floor('R18.2', 2); chk.floor('R18.3', 2); chk.floor('R18.4', 3); chk.floor('R18.5', 2); chk.floor('R18.6', 1)
-
-
-def header_expr(st):
-    if isinstance(st, (ast.If, ast.While)): return st.test
-    if isinstance(st, ast.For): return st.iter
-    if isinstance(st, ast.With): return ast.Tuple(elts=[i.context_expr for i in st.items], ctx=ast.Load())
-    if isinstance(st, (ast.Try, ast.ExceptHandler, ast.FunctionDef)): return ast.Constant(value=None)
-    return st
-
-
-def stmt_of(func, node):
-    """innermost statement of func containing node"""
-    best = None
-    for st in ast.walk(func):
-        if isinstance(st, ast.stmt) and any(n is node for n in ast.walk(st)):
-            if best is None or (st.lineno >= best.lineno and sum(1 for _ in ast.walk(st)) < sum(1 for _ in ast.walk(best))):
-                best = st
-    return best
-
-
-def inside(func, node):
-    return any(n is node for n in ast.walk(func))
-
-
-def is_global_like(name, mod):
-    return name in mod.defs or name in mod.imports
-
-
-def loop_var(func, name):
-    for n in ast.walk(func):
-        if isinstance(n, ast.For):
-            if any(isinstance(t, ast.Name) and t.id == name for t in ast.walk(n.target)):
-                return True
-    return False
-
-
-def flows_into(func, name, ret_names, depth=0):
-    if name in ret_names: return True
-    if depth > 4: return False
-    for n in ast.walk(func):
-        if isinstance(n, ast.Assign) and isinstance(n.targets[0], ast.Name):
-            plain = all(isinstance(x, (ast.Name, ast.BinOp, ast.Add, ast.List, ast.Tuple, ast.Load, ast.Starred)) for x in ast.walk(n.value))
-            if plain and any(isinstance(x, ast.Name) and x.id == name for x in ast.walk(n.value)) and n.targets[0].id != name:
-                if flows_into(func, n.targets[0].id, ret_names, depth + 1): return True
-    return False
-
-
-def flag_reach(G, src, targets):
-    """DFS over (node, flags) where flags maps boolean locals assigned constants; prunes `if flag` / `if not flag` edges. returns witness path or None"""
-    start = (src, frozenset())
-    stack = [(start, [src])]; seen = set()
-    while stack:
-        (n, fl), path = stack.pop()
-        if (n, fl) in seen: continue
-        seen.add((n, fl))
-        if n in targets and n != src:
-            return path
-        st = G.nodes[n].get('stmt')
-        flags = dict(fl)
-        if isinstance(st, ast.ExceptHandler) or G.nodes[n].get('role') == 'handler':
-            pass
-        if isinstance(st, ast.Assign) and isinstance(st.targets[0], ast.Name) and isinstance(st.value, ast.Constant) and isinstance(st.value.value, bool):
-            flags[st.targets[0].id] = st.value.value
-        elif isinstance(st, ast.Assign) and isinstance(st.targets[0], ast.Name):
-            flags.pop(st.targets[0].id, None)
-        for _, v, dct in G.out_edges(n, data=True):
-            if isinstance(st, ast.If):
-                val = None
-                t = st.test
-                if isinstance(t, ast.Name) and t.id in flags: val = flags[t.id]
-                if isinstance(t, ast.UnaryOp) and isinstance(t.op, ast.Not) and isinstance(t.operand, ast.Name) and t.operand.id in flags: val = not flags[t.operand.id]
-                if val is not None and dct['kind'] in ('true', 'false') and dct['kind'] != ('true' if val else 'false'):
-                    continue
-            stack.append(((v, frozenset(flags.items())), path + [v]))
-    return None
-
-
-def journal(chk, m, f):
-    """writer f-string vs reader split chain"""
-    # namedtuple fields
-    fields = None
-    for st in m.tree.body:
-        if isinstance(st, ast.Assign) and isinstance(st.targets[0], ast.Name) and st.targets[0].id == 'MultiprocessingInput':
-            for c in ast.walk(st.value):
-                if isinstance(c, ast.Tuple) and all(isinstance(e, ast.Constant) for e in c.elts):
-                    fields = [e.value for e in c.elts]
-    if not fields:
-        raise AnalysisError('MultiprocessingInput fields not found')
-    # writer: the f-string written inside the loop over input_data
-    writer = None
-    for n in ast.walk(f):
-        if isinstance(n, ast.JoinedStr):
-            consts = [v.value for v in n.values if isinstance(v, ast.Constant)]
-            nfield = sum(isinstance(v, ast.FormattedValue) for v in n.values)
-            if nfield >= len(fields) - 1 and len(set(consts)) >= 2 and any(len(c) >= 2 and not c.strip().isalnum() for c in consts):
-                if nfield == len(fields):
-                    writer = n
-    if writer is None:
-        raise AnalysisError('journal writer f-string not found')
-    seps = [v.value for v in writer.values if isinstance(v, ast.Constant)]
-    names = [ast.unparse(v.value) for v in writer.values if isinstance(v, ast.FormattedValue)]
-    # map writer variables to tuple fields via `x = input_tuple.<field>`
-    var_field = {}
-    for n in ast.walk(f):
-        if isinstance(n, ast.Assign) and isinstance(n.targets[0], ast.Name) and isinstance(n.value, ast.Attribute) and n.value.attr in fields:
-            var_field.setdefault(n.targets[0].id, n.value.attr)
-    wf = [var_field.get(v) for v in names]
-    chk.ob('R18.4', 'journal writer emits the MultiprocessingInput fields in declaration order', wf == fields, f'writer order {wf} vs fields {fields}', m.where(writer), method='f-string structure')
-    inner = [s for s in seps[:-1]]
-    # reader: split constants
-    splits = []
-    for n in ast.walk(f):
-        if isinstance(n, ast.Call) and isinstance(n.func, ast.Attribute) and n.func.attr == 'split' and n.args and isinstance(n.args[0], ast.Constant):
-            splits.append((n.lineno, n.args[0].value))
-    s1 = [s for _, s in splits if s == inner[0]]
-    s2 = [s for _, s in splits if len(inner) > 1 and s == inner[1]]
-    ok = bool(s1) and bool(s2) and len(set(inner[1:])) == 1 and len(inner) == len(fields) - 1 and seps[-1] == '\n'
-    chk.ob('R18.4', 'reader splits on the same separators the writer emits (name separator, then one field separator), one line per input', ok,
-           f'writer separators {seps}, reader split constants {[s for _, s in splits]}', m.where(writer), method='writer/reader table agreement')
-    # must_include parser: characters removed must cover the str() of list and tuple containers
-    removed = set()
-    parse_node = None
-    for n in ast.walk(f):
-        if isinstance(n, ast.Call) and isinstance(n.func, ast.Attribute) and n.func.attr in ('replace', 'strip') and n.args and isinstance(n.args[0], ast.Constant) \
-                and isinstance(n.args[0].value, str):
-            chain = ast.unparse(n)
-            if 'input_data[4]' in chain or 'must' in chain:
-                for ch in n.args[0].value: removed.add(ch)
-                parse_node = parse_node or n
-        if isinstance(n, ast.Call) and ast.unparse(n.func) in ('ast.literal_eval', 'literal_eval') :
-            removed |= set('[]()'); parse_node = parse_node or n
-    if parse_node is None:
-        raise AnalysisError('must_include parser not found')
-    need = set('[]()')
-    chk.ob('R18.4', 'the must_include parser accepts the journal text of list AND tuple values (brackets and parentheses removed)', need <= removed,
-           f'characters stripped: {sorted(removed)}; a tuple is journalled as "(a, b)" and float("(a") fails on restart (also for the empty tuple "()")', m.where(parse_node),
-           key='R18.4|must_include-parser', method='character-set coverage')
-    # reader rebuilds the tuple with all fields, converting numeric ones
-    conv = {}
-    for n in ast.walk(f):
-        if isinstance(n, ast.Assign) and isinstance(n.targets[0], ast.Subscript) and ast.unparse(n.targets[0].value) == 'input_data' and isinstance(n.targets[0].slice, ast.Constant):
-            conv[n.targets[0].slice.value] = ast.unparse(n.value)[:20]
-    expect_idx = {fields.index('start') - 1: 'float', fields.index('end') - 1: 'float', fields.index('n') - 1: 'int', fields.index('must_include') - 1: '['}
-    okc = all(i in conv and conv[i].startswith(p) for i, p in expect_idx.items())
-    chk.ob('R18.4', 'reader converts start/end to float, n to int and must_include to a list at the positions the writer put them', okc, f'conversions {conv}', m.where(writer), method='index table agreement')
-
-
-# ---------------------------------------------------------------------------------------------- R18.8 case directory names
-def fstring_shape(js):
-    """JoinedStr -> (literal parts, hole expressions)"""
-    lits = ['']; holes = []
-    for v in js.values:
-        if isinstance(v, ast.Constant):
-            lits[-1] += str(v.value)
-        else:
-            holes.append(v.value); lits.append('')
-    return lits, holes
-
-
-def case_dirs(chk, m, f, worker, skip_name):
-    """The per-case directory is the unit of the on-disk protocol: the worker creates it from (grid index, case number); on a restart the skip scan recovers the
-    case number from its name, and the reload of a skipped case re-creates the name from (stored grid index, case number).  The three sites must agree."""
-    # writer: in the worker, the f-string with two holes that mention the worker's parameters
-    wparams = [a.arg for a in worker.args.args]
-    wjs = [n for n in ast.walk(worker) if isinstance(n, ast.JoinedStr) and len(fstring_shape(n)[1]) == 2
-           and all(isinstance(h, ast.Name) and h.id in wparams for h in fstring_shape(n)[1]) and any(isinstance(p, ast.Call) and 'join' in ast.unparse(p.func) and any(x is n for x in ast.walk(p)) for p in ast.walk(worker))]
-    if len(wjs) != 1:
-        raise AnalysisError(f'{m.where(worker)}: case-directory name (f-string of two worker parameters inside os.path.join) not identified ({len(wjs)} candidates)')
-    wl, wh = fstring_shape(wjs[0])
-    idx_param, num_param = wh[0].id, wh[1].id
-    # reloader: an f-string in the driver (outside the worker) with the same number of holes whose second hole is the loop variable over the skip list
-    loops = [l for l in ast.walk(f) if isinstance(l, ast.For) and isinstance(l.iter, ast.Name) and l.iter.id == skip_name and isinstance(l.target, ast.Name)]
-    rel = []
-    for l in loops:
-        for n in ast.walk(l):
-            if isinstance(n, ast.JoinedStr) and len(fstring_shape(n)[1]) == 2:
-                rel.append((l, n))
-    if not rel:
-        raise AnalysisError(f'{m.where(f)}: reload of skipped cases (f-string directory name inside the loop over {skip_name}) not found')
-    for l, n in rel:
-        rl, rh = fstring_shape(n)
-        ok = rl == wl and isinstance(rh[1], ast.Name) and rh[1].id == l.target.id
-        chk.ob('R18.8', f'the directory a skipped case is reloaded from has the name the worker gave it ({"{}".join(wl)!r} with (grid index, case number))', ok,
-               f'worker writes {"{}".join(wl)!r}, reload reads {"{}".join(rl)!r} with holes ({ast.unparse(rh[0])}, {ast.unparse(rh[1])})', m.where(n), key='R18.8|reload-name', method='f-string template agreement')
-        # the grid index used in the name: stored per skipped case with the same constructor as the one handed to the worker
-        store_exprs = []
-        if isinstance(rh[0], ast.Subscript) and isinstance(rh[0].value, ast.Name):
-            dname = rh[0].value.id
-            for a in ast.walk(f):
-                if isinstance(a, ast.Assign) and isinstance(a.targets[0], ast.Subscript) and isinstance(a.targets[0].value, ast.Name) and a.targets[0].value.id == dname:
-                    store_exprs.append(a)
-        # what the worker receives as its index parameter: element of the case tuple at the parameter's position
-        pos = wparams.index(idx_param)
-        case_elem = None
-        for a in ast.walk(f):
-            if isinstance(a, ast.Assign) and isinstance(a.value, ast.Tuple) and len(a.value.elts) > pos and any(isinstance(e_, ast.Starred) for e_ in a.value.elts):
-                case_elem = a.value.elts[pos]
-        ok2 = bool(store_exprs) and case_elem is not None and all(ast.dump(a.value) == ast.dump(case_elem) for a in store_exprs)
-        chk.ob('R18.8', 'the grid index stored for a skipped case is built by the same expression as the one handed to the worker (same text in the directory name)', ok2,
-               f'stored: {[ast.unparse(a.value) for a in store_exprs]}, handed to the worker: {ast.unparse(case_elem) if case_elem is not None else None}', m.where(store_exprs[0]) if store_exprs else m.where(n),
-               key='R18.8|index-constructor', method='AST def-use')
-    # scanner: int(<name>.split(SEP)[-1]) with SEP the literal between the two holes of the writer, the number being the last hole and nothing after it
-    sep = wl[1]
-    scans = [n for n in ast.walk(f) if isinstance(n, ast.Call) and isinstance(n.func, ast.Name) and n.func.id == 'int' and n.args and isinstance(n.args[0], ast.Subscript)
-             and isinstance(n.args[0].value, ast.Call) and isinstance(n.args[0].value.func, ast.Attribute) and n.args[0].value.func.attr == 'split' and enclosing_function(f, n) is f
-             and not any(isinstance(p, ast.With) and any(x is n for x in ast.walk(p)) for p in ast.walk(f))]
-    if not scans:
-        raise AnalysisError(f'{m.where(f)}: skip scan (int(<dir>.split(sep)[-1])) not found')
-    for n in scans:
-        sp = n.args[0].value
-        sepv = sp.args[0].value if sp.args and isinstance(sp.args[0], ast.Constant) else None
-        idx = n.args[0].slice
-        last = isinstance(idx, ast.UnaryOp) and isinstance(idx.op, ast.USub) and isinstance(idx.operand, ast.Constant) and idx.operand.value == 1
-        ok = sepv == sep and last and wl[2] == ''
-        chk.ob('R18.8', f'the restart scan recovers the case number from the directory name the worker wrote (separator {sep!r}, number last)', ok,
-               f'scan splits on {sepv!r} and takes element {ast.unparse(idx)}; the worker writes {"{}".join(wl)!r}', m.where(n), key='R18.8|scan-name', method='writer/reader template agreement')
+    need_func(m, 'multiprocessing_run')
+    chk.note_analysed('functions', 'multiprocessing_run and everything it calls inside the repository (interpreted)')
+    M.explore(chk, repo, thorough=chk.tier != 'quick')
+    M.explore_products(chk, repo, limit=None, seed=chk.seed)
+    M.explore_double(chk, repo, stride=1 if chk.tier != 'quick' else 2)
+    chk.assume('the cases of one study share nothing but the append-only study log; a killed process leaves the file system as it was after some write call (never inside one); '
+               'np.savez leaves an unreadable file until it returns; the study function is deterministic')
+    chk.floor('R18.1', 30); chk.floor('R18.2', 30); chk.floor('R18.3', 4); chk.floor('R18.6', 2); chk.floor('R18.7', 1)
